@@ -51,6 +51,37 @@ def run(ctx):
         t.raw(pure.ev_params_sound(uni, ps, g))       # live M, N, S are the released constants
         traces.append(t.to_json())
 
+    # soak: determinism must survive thousands of other derivations on the same group object (bounded caches, eviction)
+    for g in ["i23", "Ed25519", "I1024"] + (["ed37", "I3072"] if thorough else []):
+        G = uni.group(g)
+        probes = [b"", b"a", b"\x00", b"M", b"pw"]
+        t = Trace("soak/%s/before" % g, uni)
+        for x in probes:
+            t.raw(pure.ev_pw2s(uni, g, x))
+            t.raw(pure.ev_arb(uni, g, x))
+        traces.append(t.to_json())
+        nbulk = 6000 if thorough else 2600
+        t = Trace("soak/%s/bulk-sample" % g, uni)
+        for k in range(nbulk):
+            pwk = b"soak-%d" % k
+            if k % (nbulk // 12) == 0:
+                t.raw(pure.ev_pw2s(uni, g, pwk))
+                t.raw(pure.ev_arb(uni, g, pwk))
+            else:
+                G.password_to_scalar(pwk)
+                if g in ("i23", "ed37") or k % 40 == 0:
+                    try:
+                        G.arbitrary_element(pwk)
+                    except Exception:
+                        pass
+        traces.append(t.to_json())
+        t = Trace("soak/%s/after" % g, uni)
+        for x in probes:
+            t.raw(pure.ev_pw2s(uni, g, x))
+            t.raw(pure.ev_arb(uni, g, x))
+        traces.append(t.to_json())
+    ctx.cov["soak_derivations_per_group"] = 6000 if thorough else 2600
+
     def classify(t, r):
         return "F7" if all(e["why"].startswith("F7:") for e in r["errs"]) else None
     ctx.validate(traces, uni, what="derivation", classify=classify)
